@@ -19,7 +19,7 @@ class Unit:
 
     def build(self):
         prog = E.Program(self.paths(), self.typevars)
-        tys = {'IARR': E.IARR, 'INT': E.INT, 'BOOL': E.BOOL, 'STR': E.STR}
+        tys = {'IARR': E.IARR, 'INT': E.INT, 'BOOL': E.BOOL, 'STR': E.STR, 'THUNK_STR': E.Ty('thunk', E.STR)}
         def ty(x):
             if x in tys: return tys[x]
             if x.startswith('list['): return E.ListT(ty(x[5:-1]))
